@@ -194,7 +194,7 @@ def mk_obs(fn):
 
 def obs_api(tags):
     def f(di, dm, il, ml):
-        return tag_lines(il, tags), tag_lines(ml, tags)
+        return ({t: tag_lines(il, [t]) for t in tags}, {t: tag_lines(ml, [t]) for t in tags})
     return f
 
 def chk_no_panic(il, txt):
